@@ -29,7 +29,13 @@ pub fn generate(g: &mut Gen, thorough: bool) {
         for _ in 0..rounds {
             let d = proj::random(&mut g.rng, name);
             let def = d.def();
-            let pts = proj::points(&mut g.rng, &d, 8);
+            let mut pts = proj::points(&mut g.rng, &d, 8);
+            // neighbours on one meridian and on one parallel (a graticule stored line by line): consecutive tuples
+            // sharing one element bit for bit are still tuples of their own
+            pts[1][0] = pts[0][0];
+            pts[3][0] = pts[2][0];
+            pts[5][1] = pts[4][1];
+            pts[7][1] = pts[6][1];
             let tol = match name {
                 "btmerc" | "butm" | "omerc" => 2e-3,
                 _ => 5e-6,
@@ -104,6 +110,15 @@ pub fn generate(g: &mut Gen, thorough: bool) {
         let d = proj::ProjDef { name: "omerc", shape: String::new(), ellps: "evrstSS".into(), lon_0: 115.0, lat_0: None, k_0: 1.0, x_0: 0.0, y_0: 0.0, has_lon0: true, has_k0: true, has_xy: true, centre: (115.0, latc), extent: (6.0, 6.0) };
         let pts = proj::points(&mut g.rng, &d, 10);
         case(g, "default", &def, "F", "geo", 2e-3, &pts, "omerc-variants", true);
+    }
+    // every auxiliary latitude on the extreme shapes: spheres (every series coefficient vanishes) and the most
+    // flattened built-in ellipsoid; the equator and the last degrees before the poles among the latitudes
+    for ellps in ["sphere", "unitsphere", "mprts", "6378137,150"] {
+        for kind in ["geocentric", "reduced", "conformal", "rectifying", "authalic", "parametric"] {
+            let lat: Vec<[f64; 4]> = [0.0, 0.3, -0.9, 1.2, -1.5, 1.55, 1e-9, -1.0e-5].iter().map(|l| [0.5, *l, 10.0, 2000.0]).collect();
+            case(g, "default", &format!("latitude {kind} ellps={ellps}"), "F", "geo", 5e-6, &lat, "latitude-extreme-shapes", true);
+            case(g, "default", &format!("latitude {kind} ellps={ellps}"), "I", "geo", 5e-6, &lat, "latitude-extreme-shapes-inv-first", true);
+        }
     }
     // the three dimensional conversions, datum shifts and their relatives
     for _ in 0..rounds {
